@@ -19,25 +19,25 @@ func UUID4(r *fw.Rand) string {
 
 // Options are the engine options of a scenario (0 = engine default).
 type Options struct {
-	MaxSteps         int `json:"max_steps,omitempty"`
-	MaxResumes       int `json:"max_resumes,omitempty"`
-	MaxTemplateChars int `json:"max_template_chars,omitempty"`
-	MaxFieldChars    int `json:"max_field_chars,omitempty"`
-	MaxResultChars   int `json:"max_result_chars,omitempty"`
+	MaxSteps         int  `json:"max_steps,omitempty"`
+	MaxResumes       int  `json:"max_resumes,omitempty"`
+	MaxTemplateChars int  `json:"max_template_chars,omitempty"`
+	MaxFieldChars    int  `json:"max_field_chars,omitempty"`
+	MaxResultChars   int  `json:"max_result_chars,omitempty"`
 	Set              bool `json:"set,omitempty"` // false: engine defaults
 }
 
 // Scenario is one generated workload: assets (incl. flows), a trigger, a resume history, engine options.
 type Scenario struct {
-	Assets  M          `json:"assets"`
-	Trigger M          `json:"trigger"`
-	Resumes []M        `json:"resumes"`
-	Options Options    `json:"options"`
-	Notes   []string   `json:"notes,omitempty"` // features planted by the generator
-	Webhook string     `json:"webhook_body,omitempty"`
+	Assets  M        `json:"assets"`
+	Trigger M        `json:"trigger"`
+	Resumes []M      `json:"resumes"`
+	Options Options  `json:"options"`
+	Notes   []string `json:"notes,omitempty"` // features planted by the generator
+	Webhook string   `json:"webhook_body,omitempty"`
 }
 
-func (s *Scenario) AssetsJSON() []byte { b, _ := json.Marshal(s.Assets); return b }
+func (s *Scenario) AssetsJSON() []byte  { b, _ := json.Marshal(s.Assets); return b }
 func (s *Scenario) TriggerJSON() []byte { b, _ := json.Marshal(s.Trigger); return b }
 func (s *Scenario) Fingerprint() string {
 	b, _ := json.Marshal([]any{s.Assets, s.Trigger, s.Resumes, s.Options})
@@ -53,22 +53,22 @@ func (s *Scenario) Flows() []M {
 
 // ScenOpts biases the scenario generator.
 type ScenOpts struct {
-	FlowType        string  // "" = random
-	LoopHeavy       bool    // C01/C05: cycles, self loops, recursion
-	ContactChanges  bool    // C03/C06: many contact-modifying actions
-	QueryGroups     bool    // many query-based groups
-	Localized       bool    // translations in several languages
-	NoRandom        bool    // no random routers / rand() (C09)
-	NoWebhookCtx    bool    // templates never reference @webhook / @legacy_extra (C02)
-	SmallOptions    bool    // C05: boundary engine options
-	LongTexts       bool    // texts beyond the limits with multi-byte chars at the cut
-	Deterministic   bool    // only deterministic functions in templates
-	MaxNodes        int
-	MaxResumes      int
-	Batch           bool // allow batch triggers
-	URNPolicy       string // "" random; "urns"/"none" force redaction policy
-	NoHostileTpl    bool // only well-formed templates
-	OldSpec         bool // store flows at spec 13.0 so that lazy migration runs
+	FlowType       string // "" = random
+	LoopHeavy      bool   // C01/C05: cycles, self loops, recursion
+	ContactChanges bool   // C03/C06: many contact-modifying actions
+	QueryGroups    bool   // many query-based groups
+	Localized      bool   // translations in several languages
+	NoRandom       bool   // no random routers / rand() (C09)
+	NoWebhookCtx   bool   // templates never reference @webhook / @legacy_extra (C02)
+	SmallOptions   bool   // C05: boundary engine options
+	LongTexts      bool   // texts beyond the limits with multi-byte chars at the cut
+	Deterministic  bool   // only deterministic functions in templates
+	MaxNodes       int
+	MaxResumes     int
+	Batch          bool   // allow batch triggers
+	URNPolicy      string // "" random; "urns"/"none" force redaction policy
+	NoHostileTpl   bool   // only well-formed templates
+	OldSpec        bool   // store flows at spec 13.0 so that lazy migration runs
 }
 
 type scenGen struct {
@@ -77,22 +77,22 @@ type scenGen struct {
 	s     *Scenario
 	ftype string
 
-	fields   []M
-	groups   []M // all groups
-	static   []M
-	qgroups  []M
-	labels   []M
-	channels []M
-	globals  []M
-	topics   []M
-	users    []M
-	tpls     []M
+	fields      []M
+	groups      []M // all groups
+	static      []M
+	qgroups     []M
+	labels      []M
+	channels    []M
+	globals     []M
+	topics      []M
+	users       []M
+	tpls        []M
 	classifiers []M
-	optins   []M
-	resthooks []M
-	flowRefs []M
-	langs    []string // flow localization languages
-	baseLang string
+	optins      []M
+	resthooks   []M
+	flowRefs    []M
+	langs       []string // flow localization languages
+	baseLang    string
 	resultNames []string
 }
 
@@ -537,7 +537,9 @@ type testSpec struct {
 	args []func(r *fw.Rand) string
 }
 
-func pickS(xs ...string) func(r *fw.Rand) string { return func(r *fw.Rand) string { return fw.Pick(r, xs) } }
+func pickS(xs ...string) func(r *fw.Rand) string {
+	return func(r *fw.Rand) string { return fw.Pick(r, xs) }
+}
 
 var caseTests = []testSpec{
 	{"has_any_word", []func(*fw.Rand) string{pickS("yes yeah", "red blue", "no", "hi there", "@globals.org_name", "@(1/0)")}},
@@ -805,7 +807,7 @@ func (g *scenGen) action(ftype string, flowIdx int, loc M) M {
 		} else {
 			a["classifier"] = M{"uuid": UUID4(r), "name": "Gone"}
 		}
-		a["input"] = fw.Pick(r, []string{"@input.text", "book a flight", "@(1/0)", ""+g.tpl()})
+		a["input"] = fw.Pick(r, []string{"@input.text", "book a flight", "@(1/0)", "" + g.tpl()})
 		if a["input"] == "" {
 			a["input"] = "x"
 		}
